@@ -5,6 +5,7 @@ CONSTANTS
   NSlots = 2
   MaxVal = 2
   DropOnAbort = TRUE
+  ReuseEntry = FALSE
   LookupFirst = FALSE
   AlwaysWrite = FALSE
 INVARIANTS Coherent OneCopy
